@@ -26,6 +26,29 @@ TEXT = {
  "C11": ("exploration", "3 (C11)", "several backtests from one template under seeded construction order, run order and (baton scheduler, real threads released one at a time at spy / commission calls) seeded step interleavings; byte-identical to running alone; deep digests of template and input frames unchanged; second run() is a no-op; sampled plans re-run in fresh interpreters under other PYTHONHASHSEED values.",
          "deterministic simulation: seeded interleaving (baton-passing threads), order permutation, hash-seed / process sweep"),
 }
+
+TEXT.update({
+ "C06": ("exploration", "3 (C06)", "Rebalance / RebalanceOverTime sit behind an oracle wrapper inside real Backtest runs and are fed plan-controlled target vectors (long, short, sum <= 1, appearing / disappearing targets, sub-strategy targets, optional temp['cash']) on successive dates of moving prices: at the algo's return every target is worth (1-c) x w x base exactly (fractional, costless) or within one unit plus costs, non-targets are closed, cash is the remainder, sub-strategy internals are spread by weight.",
+         "deterministic simulation: oracle wrapper around the real algo on drifted portfolios reached through simulated history"),
+ "C12": ("exploration", "3 (C12)", "the simulator owns the clock: seeded date indices (gaps, intraday stamps, year / quarter / ISO-week-52/53/1 / leap boundaries, single dates) drive real Backtest runs whose stacks hold probes around every scheduler with seeded flags and parameters; every returned boolean is compared with a reference calendar written from the statement; three short-circuit classes of RunPeriod are listed as known findings.",
+         "deterministic simulation: simulated clock + reference calendar (refinement) over every date"),
+ "C13": ("exploration", "3 (C13)", "seeded algo programs (nested stacks, Or, Not, Require, run_always anywhere, per-date fault-injected return values) executed by the real Strategy.run inside Backtest.run on trees with children, both builds; invocation log = 30-line reference interpreter; temp empty at every run, perm persists, own stack before children, each child once; RunIfOutOfBounds judged behind a wrapper on drifting portfolios.",
+         "deterministic simulation: algo_fail injection + reference interpreter over the spy log"),
+ "C14": ("exploration", "3 (C14)", "every selection algo behind the oracle wrapper in real runs over feeds with NaN / zero / negative ticks, late listings and delistings at and around now, seeded parameters and prior selections; 3-10 line references on the same universe window; ties left open. Thin fit, stated in DESIGN.",
+         "deterministic simulation: tick faults at the simulated clock + per-algo reference on the same window"),
+ "C15": ("exploration", "3 (C15)", "every weighting algo behind the oracle wrapper in real runs with a live drifting portfolio: stated relations (normalisation, inverse-vol products equal, equal risk contributions under the same estimator, caps preserve total, delta limits vs live weights, ex-ante vol = target, PTE trigger) on the same window. Thin fit, stated in DESIGN.",
+         "deterministic simulation: windows positioned by the simulated clock, live portfolios, relation oracles"),
+ "C16": ("exploration", "3 (C16)", "crash-like terminal state reached by an injected price shock: leveraged / short flat and nested portfolios pushed through, onto or just above zero equity on any date; the flag is judged at every root update against the reference model's equity, the tree must be flat right after the liquidating update and the ledger must still reconcile, afterwards no live spy runs and positions / value / cash stay constant; sub-strategies and FI roots never flagged.",
+         "deterministic simulation: price-shock fault injection + model equity path + spy log over the subsequent history"),
+ "C17": ("exploration", "3 (C17)", "fixed-income trees with all five security types: op-level runs against the reference ledger (notional per type, notional weights, carry accrued on the end-of-day position and swept once on the next date, additive index) and real Backtest runs with SetNotional + Rebalance behind a wrapper (notional_i = w_i x N) plus the renormalised result formula; one class (FixedIncomeSecurity sized by cash) is a known finding.",
+         "deterministic simulation: reference ledger for carry / notional / additive index + oracle wrapper"),
+ "C18": ("exploration", "3 (C18)", "every report of finished simulated backtests of every shape (nested, shared tickers, no trades, shorts, spreads) recomputed from the node histories; costless runs are replayed: get_transactions() fed to ReplayTransactions must reproduce positions and values.",
+         "deterministic simulation: recomputation over finished histories + transaction-log replay"),
+ "C19": ("exploration", "3 (C19)", "trees assembled through every constructor path are checked structurally and run by the real Backtest; membership change is the fault: a twin with every string / lazy child constructed up front must give the same histories (1e-10), a spy checks universe scoping inside running strategies, settings pushed from the top must reach nodes created mid-run; two algos that enumerate existing children are known findings.",
+         "deterministic simulation: lazy-child membership fault, lazy vs eager twin runs"),
+ "C20": ("exploration", "3 (C20)", "FI trees with seeded unit-risk tables, multipliers, UpdateRisk histories, square / pseudo-inverse hedges and close / roll tables whose dates are timers on the simulated clock (falling between ticks, prices absent after maturity): spies compare node.risk(s) with unit x position x multiplier summed over the tree, hedged measures with zero / the normal equations, positions with the tables, SelectActive with closed / rolled sets.",
+         "deterministic simulation: timers on the simulated clock, once-only effects and tree aggregation checked by spies"),
+})
 NOTE = "trusted base: the reference model / oracle code under /verif/sim, pandas/numpy/ffn as installed, the commission and feed generators; a clean batch is evidence for the sampled schedules and inputs, not proof"
 
 def main():
